@@ -78,11 +78,22 @@ fn problem(k: usize, backward: bool) -> (Prob, f64) {
             })),
             2.0,
         ),
+        // an upper-bidiagonal linear system solved with the Jacobian storage declared as Banded { ml: 0, mu: 1 }
+        // (with an analytic Jacobian: the library's differenced default documents that it does not support banded storage)
+        15 => {
+            let mut p = mk("upper bidiagonal system, banded Jacobian storage (0,1)", 3, vec![1.0, 0.5, 0.25], Arc::new(|_t, y, d| {
+                d[0] = -y[0] + 2.0 * y[1];
+                d[1] = -3.0 * y[1] + y[2];
+                d[2] = -0.5 * y[2];
+            }));
+            p.jac = Some(Arc::new(move |_t, _y| vec![-s, 2.0 * s, 0.0, 0.0, -3.0 * s, s, 0.0, 0.0, -0.5 * s]));
+            (p, 2.0)
+        }
         5 => (mk("rhs discontinuous in t", 1, vec![1.0], Arc::new(|t, y, d| d[0] = -y[0] + if t > 0.7 { 5.0 } else { 0.0 })), 2.0),
         _ => (mk("rhs discontinuous in y", 1, vec![0.0], Arc::new(|_t, y, d| d[0] = if y[0] > 0.5 { -2.0 } else { 1.0 })), 1.0),
     }
 }
-const NPROB: usize = 15;
+const NPROB: usize = 16;
 /// real eigenvalue of the inverse Radau IIA matrix as written in radau.rs (the resonance scene is
 /// only a scene: if the constant differed the run would simply not meet a singular matrix)
 const RADAU_U1: f64 = 3.637_834_252_744_496;
@@ -161,6 +172,9 @@ fn cfg_of(b: &Base) -> (Prob, Cfg) {
     let mut c = Cfg::new(b.method, 0.0, xend, &p.y0).tol(1e-4, 1e-6);
     if b.prob == 12 {
         c = c.tol(1e-9, 1e-11);
+    }
+    if b.prob == 15 {
+        c.jac_storage = ivp::matrix::MatrixStorage::Banded { ml: 0, mu: 1 };
     }
     if b.prob == 14 {
         c.rtol = crate::run::Tol::V(vec![1e-10, 1e-6]);
